@@ -44,6 +44,10 @@ def main():
         for d in demo:
             os.remove(os.path.join("/repo", pkg, d))
         rcb, ob = sh(BASE)
+        if not (rcb == 0 and "FAIL" not in ob):
+            # the stock suite has tests that fail now and then on a loaded machine (fixed file names under TMPDIR): once more
+            out["baseline_first_failure"] = [l for l in ob.splitlines() if "FAIL" in l][:5]
+            rcb, ob = sh(BASE)
         out["baseline_with_change"] = "pass" if rcb == 0 and "FAIL" not in ob else "FAIL"
         res = {}
         for c in checks:
